@@ -3557,6 +3557,10 @@ class QuicConnection:
                 else 0
             )
         )
+        if builder.remaining_flight_space < frame_overhead:
+            # no room for the frame header: leave the stream untouched, a FIN-only
+            # frame taken from the sender now could not be written and would be lost
+            return 0
         previous_send_highest = stream.sender.highest_offset
         frame = stream.sender.get_frame(
             builder.remaining_flight_space - frame_overhead, max_offset
